@@ -36,10 +36,11 @@ const (
 	rRFerr
 	rW0
 	rPanic
+	rWH1xx
 	nROps
 )
 
-var rOpNames = [...]string{"WriteHeader(201)", "WriteHeader(404)", "Write(10)", "Write(short)", "Write(err)", "ReadFrom(7)", "Flush", "ReadFrom(3 bytes then error)", "Write(0 bytes)", "panic(http.ErrAbortHandler)"}
+var rOpNames = [...]string{"WriteHeader(201)", "WriteHeader(404)", "Write(10)", "Write(short)", "Write(err)", "ReadFrom(7)", "Flush", "ReadFrom(3 bytes then error)", "Write(0 bytes)", "panic(http.ErrAbortHandler)", "WriteHeader(103)"}
 
 // fake ResponseWriters of three capability sets; they record what was actually sent.
 type fakeRW struct {
@@ -353,6 +354,8 @@ func c18round(out *evid.Out, f *evid.Flags, round int, specs []reqSpec) {
 				w.WriteHeader(201)
 			case rWHb:
 				w.WriteHeader(404)
+			case rWH1xx:
+				w.WriteHeader(103)
 			case rW:
 				w.Write([]byte("0123456789"))
 			case rW0:
@@ -612,6 +615,10 @@ func c18round(out *evid.Out, f *evid.Flags, round int, specs []reqSpec) {
 			case rWHb:
 				if wantStatus == 0 {
 					wantStatus = 404
+				}
+			case rWH1xx:
+				if wantStatus == 0 {
+					wantStatus = 103 // "the first WriteHeader", whatever its code
 				}
 			case rW, rW0, rWshort, rWerr, rRF, rRFerr:
 				if wantStatus == 0 {
